@@ -304,7 +304,14 @@ impl Prop for C08 {
             // duration of one iteration: one tick per event + delays
             let one_iter: u64 = exp.iter().map(|s| if let Step::Delay(dl) = s { (*dl).max(1) } else { 1 }).sum::<u64>() + 2;
             // Was this activation possibly cut short?
-            let cut_by_release = rel_cancel && t_release < t_press + one_iter + 2;
+            // releasing ANY release-cancel macro key cancels all active macros (documented)
+            let any_cancelling_release = variants.iter().enumerate().any(|(oi, ov)| {
+                ov.contains("release-cancel") && {
+                    let ok = oscode_of(names[oi]);
+                    arr.iter().any(|(t, op)| matches!(op, Op::Release(c) if *c == ok) && *t >= t_press && *t < t_press + one_iter + 2)
+                }
+            });
+            let cut_by_release = (rel_cancel && t_release < t_press + one_iter + 2) || any_cancelling_release;
             let cut_by_press = press_cancel && other_press_t.map(|t| t < t_press + one_iter + 8).unwrap_or(false);
             if exp_events.is_empty() {
                 continue;
